@@ -12,3 +12,73 @@ def run(ctx):
     r.rule_text = 'E1 panic-site inventory over client::retry'
     run_e1(ctx, ENTRY)
     r.floor('E1-panic', 'reachable_bodies', r.counts.get('reachable_bodies', 0), 5)
+    backoff_formula(ctx)
+
+
+def backoff_formula(ctx, rule='backoff-formula'):
+    """the recurrence of ExponentialBackoff::next read from MIR: yields the current delay, then
+    current := min(max_sleep, current.saturating_mul(2)) on the Duration itself (no unit conversion), counts with a saturating
+    increment, and stops exactly when max_retries is Some(max) with max <= retry_count"""
+    import re
+    from ..facts import fmt_sym, fmt_lit
+    r, db = ctx.r, ctx.db
+    bs = db.find_bodies(r'ExponentialBackoff as std::iter::Iterator>::next$')
+    if not bs:
+        r.lost(rule, 'next', 'ExponentialBackoff::next not found'); return
+    b = bs[0]; F = ctx.facts(b)
+    writes = {}
+    for bi, blk in enumerate(b.blocks):
+        if blk['c']:
+            continue
+        for st in blk['s']:
+            if st[0] == '=' and st[1][0] == 1 and st[1][1] and st[1][1][0] == '*':
+                writes.setdefault(st[1][1][-1], []).append(fmt_sym(b, F.sym_rvalue(st[2], 0, bi)))
+        t = blk['t']
+        if t[0] == 'call' and t[3][0] == 1 and t[3][1] and t[3][1][0] == '*':
+            c = [c for c in b.calls() if c.bb == bi][0]
+            writes.setdefault(t[3][1][-1], []).append(fmt_sym(b, F.sym_call(c)))
+    S = r'\(\*self\(_1\)\)'
+    probs = []
+    cs = writes.get('.current_sleep', [])
+    okc = len(cs) == 1 and (re.match(r'^Ord::min\(%s\.max_sleep, Duration::saturating_mul\(%s\.current_sleep, 2\)\)$' % (S, S), cs[0]) or
+                            re.match(r'^Ord::min\(Duration::saturating_mul\(%s\.current_sleep, 2\), %s\.max_sleep\)$' % (S, S), cs[0]))
+    if not okc:
+        probs.append('current_sleep := %s, not min(max_sleep, current_sleep.saturating_mul(2))' % (cs or ['(no write)'])[0][:110])
+    rc = writes.get('.retry_count', [])
+    if not (len(rc) == 1 and re.match(r'^num::saturating_add\(%s\.retry_count, 1\)$' % S, rc[0])):
+        probs.append('retry_count := %s, not retry_count.saturating_add(1)' % (rc or ['(no write)'])[0][:80])
+    extra = sorted(k for k in writes if k not in ('.current_sleep', '.retry_count'))
+    if extra:
+        probs.append('also writes %s' % extra)
+    rets = [fmt_sym(b, F.sym_rvalue(d[3], 0, d[1])) for d in b.defs().get(0, []) if d[0] == 'stmt']
+    if sorted(rets) != sorted(['Option::None', 'Option::Some{Clone::clone(&(*self(_1)).current_sleep)}']):
+        probs.append('yields %s, not None / Some(current_sleep)' % rets)
+    # Some(current) is built from the value before the update
+    for bi, blk in enumerate(b.blocks):
+        for si, st in enumerate(blk['s']):
+            if st[0] == '=' and st[1][0] == 1 and st[1][1] and st[1][1][-1] == '.current_sleep':
+                clones = [c for c in b.calls() if c.callee.endswith('Clone::clone') and 'current_sleep' in fmt_sym(b, F.sym_operand(c.args[0]))]
+                if not clones or not all(b.dominates(c.bb, bi) and c.bb != bi for c in clones):
+                    probs.append('the delay handed out is read after current_sleep was doubled')
+    # stop condition
+    for d in b.defs().get(0, []):
+        if d[0] == 'stmt' and fmt_sym(b, F.sym_rvalue(d[3], 0, d[1])) == 'Option::None':
+            lits = [fmt_lit(b, l) for l, e in F.literals_at(d[1], d[2])]
+            if not any(re.search(r'is_some_and\(%s\.max_retries, .*\) == True$' % S, x) for x in lits):
+                probs.append('None is returned without max_retries.is_some_and(..) being true')
+    if probs:
+        r.fail(rule, 'ExponentialBackoff::next', 'the back-off recurrence is not "yield current; current = min(max, 2 * current)": ' + '; '.join(probs[:3]), loc=b.loc)
+    else:
+        r.ok(rule, 'ExponentialBackoff::next', 'yields current_sleep, then current_sleep = min(max_sleep, current_sleep.saturating_mul(2)); retry_count saturating; None only when the limit is reached', loc=b.loc)
+    # the limit test: max <= retry_count
+    cl = db.find_bodies(r'ExponentialBackoff as std::iter::Iterator>::next::\{closure#0\}$')
+    if cl:
+        Fc = ctx.facts(cl[0])
+        ds = cl[0].defs().get(0, [])
+        t = fmt_sym(cl[0], Fc.sym_rvalue(ds[0][3], 0, ds[0][1])) if len(ds) == 1 and ds[0][0] == 'stmt' else ''
+        if re.match(r'^\(max\(_\d+\) Le .*retry_count(\(_[\d.]+\))?\)$', t):
+            r.ok(rule, 'limit-test', 'stops when max <= retry_count', loc=cl[0].loc)
+        else:
+            r.fail(rule, 'limit-test', 'the retry limit test is %s, not max <= retry_count: the policy yields one delay too many or too few' % t[:80], loc=cl[0].loc)
+    else:
+        r.lost(rule, 'limit-test', 'limit closure not found')
